@@ -927,3 +927,47 @@ def shrink(forms, fails_batch, max_rounds=80, batch=48):
             break
         forms = ok[0]
     return forms
+
+
+# ----------------------------------------------------------------------------- regression corpus
+# Minimised programs on which the engine once differed from the reference (DESIGN 8.3); run first.
+
+def _i(n): return ("int", n)
+def _v(x): return ("var", x)
+def _app(f, *a): return ("app", f, list(a))
+
+
+CORPUS = [
+    # F40: nested applied lambdas flattened across a rest parameter
+    [("app", ("lam", ["p"], "rest", [("let", [("c", _i(5))],
+        [("let", [("inc", ("lam", [], None, [("set", "c", _i(0)), _v("c")]))], [_v("c")])])]), [_v("cons")])],
+    [("app", ("lam", ["p"], None, [("app", ("lam", ["c"], "r", [_app(_v("list"), _v("c"), _v("r"))]), [_i(5), _i(6)])]), [_v("car")])],
+    [("app", ("lam", ["p"], "rest", [("app", ("lam", ["c"], None, [_app(_v("list"), _v("p"), _v("rest"), _v("c"))]), [_i(5)])]),
+      [_i(1), _i(2), _i(3)])],
+    # F37: rest parameter with no surplus operand
+    [("app", ("lam", ["a"], "r", [_app(_v("cons"), _v("a"), _v("r"))]), [_i(1)])],
+    # F25: (quote #f) is false
+    [("if", ("let", [("p", ("bool", False))], [_v("p")]), _i(1), _i(2))],
+    # F26: apply after cdr
+    [_app(_v("apply"), _v("list"), _i(0), _app(_v("cdr"), _app(_v("list"), _i(9), _i(-6), _i(4))))],
+    # F27: constant body of an applied lambda
+    [("define", "f", ("lam", ["x"], None, [("let", [("b", _v("x")), ("c", ("quote", ("dlist", [])))], [_v("c")])])), _app(_v("f"), _i(1))],
+    # F39: errors below natively compiled frames
+    [("define", "g", ("lam", ["a"], None, [("if", _app(_v("<="), _v("a"), _i(0)), _app(_v("car"), _v("a")),
+                                           _app(_v("g"), _app(_v("-"), _v("a"), _i(1))))])), _app(_v("g"), _i(2))],
+    [("define", "h", ("lam", ["a"], None, [("handler", ("lam", ["e"], None, [_v("a")]), [_app(_v("car"), ("quote", ("dlist", [])))])])),
+     _app(_v("h"), _i(10)), _app(_v("h"), _i(11))],
+    # F29 / F38: operand counts the native tier has no helper for
+    [("define", "c9", ("lam", ["f"], None, [_app(_v("f"), *[_i(k) for k in range(1, 10)])])), _app(_v("c9"), _v("+"))],
+    [("define", "s5", ("lam", ["a"], None, [_app(_v("-"), _v("a"), _i(1), _i(2), _i(3), _i(4))])), _app(_v("s5"), _i(20)), _app(_v("s5"), _i(21))],
+]
+
+# definitions that go into a required module, and the expressions of the main program (C02 module family)
+MODULE_CORPUS = [
+    ([("define", "fa", ("lam", ["x"], None, [_app(_v("car"), _v("x"))])),
+      ("define", "fb", ("lam", ["a"], None, [("handler", ("lam", ["e"], None, [_v("a")]), [_app(_v("car"), ("quote", ("dlist", [])))])])),
+      ("define", "fc", ("lam", ["x"], None, [_app(_v("-"), _v("x"), _i(1))])),
+      ("define", "fd", ("lam", ["x"], None, [_app(_v("vector-ref"), _app(_v("vector"), _i(1), _i(2)), _v("x"))]))],
+     [_app(_v("fa"), ("quote", ("dlist", []))), _app(_v("fb"), _i(10)), _app(_v("fb"), _i(11)), _app(_v("fc"), ("str", "a")),
+      _app(_v("fd"), _i(10)), _app(_v("fa"), _app(_v("list"), _i(3)))]),
+]
